@@ -59,6 +59,12 @@ structure World where
   path : Path
   fs : FS
   loaders : List Loader   -- loaders 0..2
+  /-- number of `S` items so far (session objects still in their callers' hands) -/
+  passed : Nat := 0
+  /-- number of sessions the `Load`s have handed out so far -/
+  handed : Nat := 0
+  /-- the clients started so far, each with the loader it was started on -/
+  clients : List (Nat × Client) := []
 
 def World.loader (w : World) (i : Nat) : Loader := w.loaders.getD i (Loader.new w.path)
 
@@ -81,6 +87,20 @@ def showClient : Outcome Client → String
   | .err e => "Cerr:" ++ e
   | .panic q => "panic:" ++ q
 
+def isOk {α} : Outcome α → Bool
+  | .ok _ => true
+  | _ => false
+
+/-- what a client does to itself (item `MC`): key / key id bytes rewritten, another salt. Lists are values: nothing
+else in the world changes. -/
+def mutateClient (c : Client) : List Char → Client
+  | [] => c
+  | 'k' :: r => mutateClient { c with authKey := c.authKey.map (· ^^^ 0xff) } r
+  | 'h' :: r => mutateClient { c with authKeyHash := c.authKeyHash.map (· ^^^ 0xff) } r
+  | 'z' :: r => mutateClient { c with authKey := c.authKey.map (fun _ => 0), authKeyHash := c.authKeyHash.map (fun _ => 0) } r
+  | 's' :: r => mutateClient { c with serverSalt := -c.serverSalt - 1 } r
+  | _ :: r => mutateClient c r
+
 /-- one item of a history; `none` = ill-formed -/
 def runItem (w : World) (t : String) : Option (World × String) :=
   match t.splitOn ":" with
@@ -90,22 +110,47 @@ def runItem (w : World) (t : String) : Option (World × String) :=
     let m ← m.toNat?
     if i ≥ 3 then none else
     let (l, fs, o) := (w.loader i).store w.fs s m
-    pure ({ w.setLoader i l with fs := fs }, showUnit o)
+    pure ({ w.setLoader i l with fs := fs, passed := w.passed + 1 }, showUnit o)
   | ["L", i] => do
     let i ← i.toNat?
     if i ≥ 3 then none else
     let (l, o) := (w.loader i).load w.fs
-    pure (w.setLoader i l, showRes o)
+    pure ({ w.setLoader i l with handed := w.handed + (if isOk o then 1 else 0) }, showRes o)
   | ["F"] =>
     let (_, o) := (Loader.new w.path).load w.fs
-    some (w, showRes o)
+    some ({ w with handed := w.handed + (if isOk o then 1 else 0) }, showRes o)
   | ["C", i] => do
     -- `NewMTProto(Config{SessionStorage: loader i, ServerHost: cfgHost})`: the loader's `Load` runs (and fills its
     -- cache), the client takes over what it returned
     let i ← i.toNat?
     if i ≥ 3 then none else
     let (l, _) := (w.loader i).load w.fs
-    pure (w.setLoader i l, showClient (newClient (w.loader i) w.fs cfgHost))
+    let c := newClient (w.loader i) w.fs cfgHost
+    let cs := match c with | .ok c => w.clients ++ [(i, c)] | _ => w.clients
+    pure ({ w.setLoader i l with clients := cs }, showClient c)
+  -- the caller of the n-th `Store` / the holder of the n-th loaded session goes on with ITS object: `Loader.store`
+  -- took a value and `Loader.load` returned one, so nothing in the world depends on it
+  | ["MS", n, _] => do
+    let n ← n.toNat?
+    pure (w, if n < w.passed then "ok" else "none")
+  | ["MG", n, _] => do
+    let n ← n.toNat?
+    pure (w, if n < w.handed then "ok" else "none")
+  | ["MC", n, modes] => do
+    let n ← n.toNat?
+    match w.clients[n]? with
+    | some (i, c) => pure ({ w with clients := w.clients.set n (i, mutateClient c modes.toList) }, "ok")
+    | none => pure (w, "none")
+  | ["V", n, m] => do
+    -- `SaveSession`: `Store`, through the storage the client was started on, of what the client holds
+    let n ← n.toNat?
+    let m ← m.toNat?
+    match w.clients[n]? with
+    | some (i, c) =>
+      let s : Session := { key := c.authKey, hash := c.authKeyHash, salt := c.serverSalt, hostname := c.addr }
+      let (l, fs, o) := (w.loader i).store w.fs s m
+      pure ({ w.setLoader i l with fs := fs }, showUnit o)
+    | none => pure (w, "none")
   | ["H"] =>
     -- sessions and clients are values in the model: what was handed out stays what it was
     some (w, "held=same")
